@@ -20,6 +20,7 @@ import (
 	"net"
 	"net/http"
 	"strconv"
+	"strings"
 
 	"github.com/caddyserver/certmagic"
 	"github.com/tmpim/casket"
@@ -215,8 +216,16 @@ func redirPlaintextHost(cfg *SiteConfig) *SiteConfig {
 			requestHost, _, err := net.SplitHostPort(r.Host)
 			if err != nil {
 				requestHost = r.Host // Host did not contain a port, so use the whole value
+				// (an IPv6 literal then still has its brackets; SplitHostPort removes them)
+				if strings.HasPrefix(requestHost, "[") && strings.HasSuffix(requestHost, "]") {
+					requestHost = requestHost[1 : len(requestHost)-1]
+				}
 			}
 			if redirPort == "" {
+				if strings.Contains(requestHost, ":") {
+					// an IPv6 literal needs its brackets in a URL
+					requestHost = "[" + requestHost + "]"
+				}
 				toURL += requestHost
 			} else {
 				toURL += net.JoinHostPort(requestHost, redirPort)
